@@ -213,6 +213,10 @@ def check_cell(rec, W, cell):
         if ncb == 2 and cl is None:
             # what a conditional response does before it is served (stores the computed length as a header)
             r.make_conditional(env)
+    if (ncb + len(kind) + len(str(status))) % 3 == 0:
+        # configuration: the class switch that stops werkzeug from computing a length; what must not be sent is still not sent
+        r.automatically_set_content_length = False
+        rec.observe("cells_with_automatic_content_length_off")
     if (ncb + len(kind)) % 2:
         # the way a server does it: the response object called as the WSGI application it is
         started = []
@@ -224,6 +228,11 @@ def check_cell(rec, W, cell):
         st, hd = started[0]
     else:
         it, st, hd = r.get_wsgi_response(env)
+    late = None
+    if kind not in ("fw", "wrapfile"):
+        # a middleware that called the response registers its own clean-up now, while the server has not closed anything yet
+        late = [0]
+        r.call_on_close(lambda: late.__setitem__(0, late[0] + 1))
     broken = False
     try:
         data = b"".join(it)
@@ -260,6 +269,10 @@ def check_cell(rec, W, cell):
         L = hdd.get("location")
         if L is None or not L.isascii() or any(ch in L for ch in " \t\r\n<>\""):
             rec.violation("C05/H3-location-not-ascii-uri", f"{cell}: {L!r}", case, monitor="H3")
+    if late is not None:
+        rec.observe("callbacks_registered_after_the_iterable_was_handed_out")
+        if late[0] != 1:
+            rec.violation("C05/H5-callback-registered-after-hand-out-ran-%d-times" % late[0], f"{cell}", case, monitor="H5")
     for c in cbs:
         rec.observe("callbacks_checked")
         if c[0] != 1:
